@@ -602,13 +602,16 @@ HCIread_header(accrec_t *access_rec, compinfo_t *info, comp_info *c_info, model_
 {
     uint16 header_version; /* version of the compression header */
     uint8 *p;              /* pointer to the temporary buffer */
-    uint8 *local_ptbuf;
-    int32  ret_value = SUCCEED;
+    uint8 *local_ptbuf = NULL;
+    int32  ret_value   = SUCCEED;
 
     (void)m_info;
 
     /* Get the compression header (description record) */
-    HPread_drec(access_rec->file_id, access_rec->ddid, &local_ptbuf);
+    if (HPread_drec(access_rec->file_id, access_rec->ddid, &local_ptbuf) <= 0) {
+        free(local_ptbuf);
+        HGOTO_ERROR(DFE_READERROR, FAIL);
+    }
 
     /* Extract info */
     p = local_ptbuf + 2;
